@@ -80,7 +80,7 @@ def _mkmsg(kind: str, n: int) -> Any:
 
 def budget(tier: str) -> dict[str, Any]:
     if tier == "quick":
-        return {"shards": 8, "cases": 150}
+        return {"shards": 8, "cases": 1200}
     return {"shards": 32, "cases": 4000, "hashseeds": [0, 1, 2, 3]}
 
 
